@@ -1,6 +1,6 @@
 """C20 - Individual equality / hashing and the container operations built on them.
 
-Three correspondence streams (all compared exactly with the Coq model of Run/C20Run.v):
+Four correspondence streams (one coq_compare call, all compared exactly with the Coq model of Run/C20Run.v):
   pools    - pools of real Individual objects (all classes, all construction paths, scrambled non-vector
              fields, colliding Individual.id, hash-colliding vectors, int / numpy representations) under
              ==, in, any(==), list.remove, Archive.remove, Selector.pop_acceptance, set(),
@@ -8,7 +8,7 @@ Three correspondence streams (all compared exactly with the Coq model of Run/C20
   generate - the real GeneticAlgorithm.generate() driven by scripted selector / crossover / mutator stubs;
   foreign  - designs created by a second interpreter (own Individual.counter) and read back with
              Individual.from_dict, mixed with local designs carrying the same ids;
-  mutated  - pools of LONG-LIVED designs: every object is hashed (hash, set, dict key, nondominated_truncate), then
+  mutated  - pools of LONG-LIVED designs: every object is hashed (hash, set, dict key, x in set, nondominated_truncate), then
              vectors change (in-place element assignment, clamping onto bounds, whole-list assignment, sync, swap) so
              that distinct designs become identical and identical ones distinct, fresh twins with the same coordinates
              join the pool, and the pool operations run again on the current vectors (several rounds).
@@ -785,7 +785,7 @@ def run(ctx):
 
     stats["hash_collisions_available"] = sum(1 for a, b in COLLIDE.items() if hash(a) == hash(b))
     ctx.coq_compare("c20", HEADER, "c20_case", "c20_obs", "c20_run", "c20_obs_eqb", cases, expected, meta, shard=300)
-    ctx.rule = ("(0) [stream `mutated`] pools of 3..8 long-lived designs: all hashed (hash / set / dict key / nondominated_truncate), then 1..3 vector "
+    ctx.rule = ("(0) [stream `mutated`] pools of 3..8 long-lived designs: all hashed (hash / set / dict key / x in set / nondominated_truncate), then 1..3 vector "
                 "changes (clamping onto bounds in place, element-wise copy, perturbation in place, assignment of a new / of another member's list, "
                 "sync, swap, splitting identical designs), fresh twins with the current coordinates added, then ==, set/truncate, in/remove on "
                 "the identical pairs and random operations; 2..3 rounds per pool. "
